@@ -617,10 +617,10 @@ fn long_lines(_t: Tier) -> BoxedStrategy<Case> {
 
 fn subs() -> Vec<Sub> {
     vec![
-        gen_sub("long_lines", long_lines, |t| t.pick(4_000, 100_000), check),
+        gen_sub("long_lines", long_lines, |t| t.pick(20_000, 100_000), check),
         custom_sub::<Case>("exhaustive_small", run_exhaustive, check),
         custom_sub::<Case>("slices", run_slices, check),
-        gen_sub("histories", histories, |t| t.pick(20_000, 1_000_000), check),
+        gen_sub("histories", histories, |t| t.pick(150_000, 1_000_000), check),
     ]
 }
 
